@@ -26,11 +26,12 @@ SmallUnused == SUBSET (0..1)
 NoFilter(r) == TRUE
 \* wide interface: twelve positional inputs (two-digit indices), custom names, three leaves with a repeated one
 WideNin == {12}
-WideNout == {1, 3}
+WideNout == {1, 3, 4}
 WideUnused == {{}, {3, 10}}
 WideFilter(r) == /\ r.fault = "none" /\ r.optRaiseAt = 0 /\ ~r.strict /\ ~r.param /\ r.nchwIn \in {"none", "first"}
                  /\ r.nchwOut \in {"none", "first"} /\ r.inNames \in {"none", "ok"} /\ r.outNames \in {"none", "ok"}
-                 /\ r.outKind \in {"computed", "duplicate", "folds_to_duplicate"}
+                 /\ r.outKind \in {"computed", "duplicate", "folds_to_duplicate", "all_one_value"}
+                 /\ (r.nout = 4 => r.outKind = "all_one_value")       \* four leaves on one value: three aliases of it
 
 InNames == {"none", "ok", "dup", "wrong_len", "collide_param", "collide_output"}
 OutNames == {"none", "ok", "dup", "wrong_len", "collide_param"}
@@ -47,7 +48,8 @@ Requests ==
      \* what the result leaves are.  "folds_to_duplicate": the last leaf is a Transpose / Reshape / Cast ROUND TRIP of
      \* the leaf before it -- two distinct values after lowering that the optimizer folds into one; the interface must
      \* still have one output per leaf with a name of its own (OutputsPerLeaf, NamesApplied)
-     outKind : {"computed", "alias_input", "constant", "duplicate", "folds_to_duplicate"},
+     \* "all_one_value": EVERY leaf is the same value (three leaves = the value itself plus two aliases)
+     outKind : {"computed", "alias_input", "constant", "duplicate", "folds_to_duplicate", "all_one_value"},
      fault : Faults,
      optRaiseAt : 0..NPass,                    \* 0 = optimizer does not fail
      strict : BOOLEAN]
@@ -61,7 +63,8 @@ WellFormedReq(r) ==
     /\ (r.inNames = "dup" => r.nin >= 2) /\ (r.outNames = "dup" => r.nout >= 2)
     /\ (r.inNames = "collide_output" => r.outNames = "ok")
     /\ (r.outKind = "alias_input" => r.nin >= 1 /\ 0 \notin r.unused)
-    /\ (r.outKind \in {"duplicate", "folds_to_duplicate"} => r.nout >= 2)
+    /\ (r.outKind \in {"duplicate", "folds_to_duplicate", "all_one_value"} => r.nout >= 2)
+    /\ (r.outKind = "all_one_value" => r.nchwOut = "none")
     \* "duplicate": the LAST TWO leaves are one value; with three leaves the first may be layout-flagged
     /\ (r.outKind \in {"alias_input", "constant"} => r.nchwOut = "none")
     /\ (r.outKind \in {"duplicate", "folds_to_duplicate"} /\ r.nout = 2 => r.nchwOut = "none")
